@@ -20,7 +20,7 @@ def check(rep):
     ER.rule_skip_guard(ctx, rid="C08.SKIP-EXACT")
     ER.rule_text_unmodified(ctx)
     # the comment state must be total: otherwise its error() (sly's default raises) is reachable
-    for state, lc in ctx.lexers.items():
+    for state, lc in ctx.states.items():
         if state == ctx.main.name:
             continue
         fail = ctx.lexicon(state).failing_input()
